@@ -108,6 +108,8 @@ impl Storable for Other {}
 struct Gate {
     expected: usize,
     arrived: AtomicUsize,
+    /// somebody gave up waiting
+    timed_out: std::sync::atomic::AtomicBool,
 }
 static GATE: Mutex<Option<std::sync::Arc<Gate>>> = Mutex::new(None);
 
@@ -123,6 +125,9 @@ fn gate_wait() {
             } else {
                 std::hint::spin_loop();
             }
+        }
+        if g.arrived.load(SeqCst) < g.expected {
+            g.timed_out.store(true, SeqCst);
         }
     }
 }
@@ -181,6 +186,8 @@ pub enum Op {
     Reload(T, u8),
     /// a failing reload: the old value stays
     BadReload(T, u8),
+    /// a failing reload because the file is gone: the old value stays, and stays reachable
+    MissingReload(T, u8),
     /// a reload in which the destructor of the replaced value panics (tracked layouts)
     PanickyReload(T, u8),
     /// a reader holds a guard across a reload
@@ -472,9 +479,10 @@ fn run_case(c: &Case, out: &mut Outcome, flags: &mut (bool, bool, bool, bool)) {
                 st.cached.clear();
                 st.was_reloaded.clear();
             }
-            Op::Reload(t, n) | Op::BadReload(t, n) | Op::PanickyReload(t, n) => {
+            Op::Reload(t, n) | Op::BadReload(t, n) | Op::MissingReload(t, n) | Op::PanickyReload(t, n) => {
                 let id = format!("k{n}");
-                let bad = matches!(op, Op::BadReload(..));
+                let missing = matches!(op, Op::MissingReload(..));
+                let bad = missing || matches!(op, Op::BadReload(..));
                 if let Some((tok_before, true)) = st.cached.get(&(*t, *n)).copied() {
                     if matches!(op, Op::PanickyReload(..)) {
                         match tok_before {
@@ -487,7 +495,11 @@ fn run_case(c: &Case, out: &mut Outcome, flags: &mut (bool, bool, bool, bool)) {
                     }
                     version += 1;
                     let before = by_type!(*t, reload_id_of, &cache, &id).unwrap();
-                    src.tree().put(&id, t.ext(), if bad { b"bad".to_vec() } else { format!("v{version}").into_bytes() }, Variant::Buffer);
+                    if missing {
+                        src.tree().remove(&id, t.ext());
+                    } else {
+                        src.tree().put(&id, t.ext(), if bad { b"bad".to_vec() } else { format!("v{version}").into_bytes() }, Variant::Buffer);
+                    }
                     let sent_ok = src.send(&OwnedEntry::File(id.clone(), t.ext().to_string()));
                     if bad {
                         // a failed reload keeps (and does not drop) the old value; wait until the reloader has read the bad file
@@ -596,12 +608,49 @@ fn run_case(c: &Case, out: &mut Outcome, flags: &mut (bool, bool, bool, bool)) {
                     continue;
                 }
                 let nthreads = (*threads as usize).clamp(2, 4);
-                *GATE.lock().unwrap() = Some(std::sync::Arc::new(Gate { expected: nthreads, arrived: AtomicUsize::new(0) }));
+                *GATE.lock().unwrap() = Some(std::sync::Arc::new(Gate { expected: nthreads, arrived: AtomicUsize::new(0), timed_out: std::sync::atomic::AtomicBool::new(false) }));
                 let made_before = ledger::created();
+                // odd `threads`: the last racer does not load but inserts a value of its own (get_or_insert) once the
+                // loaders are all inside the loader, i.e. past the cache miss; it counts as the gate's last arrival, so
+                // the loaders come out of the loader after the insertion: the inserted value is the one that stays
+                let with_inserter = *threads % 2 == 1;
+                let gate_now = GATE.lock().unwrap().clone().unwrap();
+                let offered = AtomicU64::new(0);
                 let results: Vec<Option<(usize, u64, bool)>> = std::thread::scope(|s| {
                     let hs: Vec<_> = (0..nthreads)
-                        .map(|_| {
-                            s.spawn(|| match t {
+                        .map(|i| {
+                            let gate_now = gate_now.clone();
+                            let (cache, id, offered) = (&cache, &id, &offered);
+                            s.spawn(move || match t {
+                                _ if with_inserter && i == nthreads - 1 => {
+                                    let mut spins = 0u32;
+                                    while gate_now.arrived.load(SeqCst) < nthreads - 1 && spins < 3_000_000 {
+                                        spins += 1;
+                                        if spins % 64 == 0 {
+                                            std::thread::yield_now();
+                                        }
+                                    }
+                                    let r = match t {
+                                        T::HV => {
+                                            let v = HV::new();
+                                            offered.store(v.tok.token, SeqCst);
+                                            let h = cache.get_or_insert(id, v);
+                                            let g = h.read();
+                                            g.tok.touch();
+                                            (h as *const _ as usize, g.tok.token, g.valid())
+                                        }
+                                        _ => {
+                                            let v = A64::new();
+                                            offered.store(v.tok.token, SeqCst);
+                                            let h = cache.get_or_insert(id, v);
+                                            let g = h.read();
+                                            g.tok.touch();
+                                            (h as *const _ as usize, g.tok.token, g.valid())
+                                        }
+                                    };
+                                    gate_now.arrived.fetch_add(1, SeqCst);
+                                    r
+                                }
                                 T::HV => {
                                     let h = cache.load::<HV>(&id).expect("load");
                                     let g = h.read();
@@ -635,7 +684,13 @@ fn run_case(c: &Case, out: &mut Outcome, flags: &mut (bool, bool, bool, bool)) {
                     out.fail("racers-disagree", format!("step {step}: racing loads of ({t:?}, {id}) returned (handle, value token, content valid) = {results:?}"));
                     break;
                 }
-                st.cached.insert((*t, *n), (Some(first.1), c.hot));
+                // (an inserted value is not reloadable; which racer won is not known when the gate timed out)
+                let inserted_won = with_inserter && offered.load(SeqCst) == first.1;
+                if with_inserter && !inserted_won && !gate_now.timed_out.load(SeqCst) {
+                    out.fail("racers-disagree", format!("step {step}: a value was stored with get_or_insert for ({t:?}, {id}) while {} threads were inside the loader for that key; they came out afterwards, yet the stored value is token {} and not the inserted one (token {})", nthreads - 1, first.1, offered.load(SeqCst)));
+                    break;
+                }
+                st.cached.insert((*t, *n), (Some(first.1), c.hot && !inserted_won));
             }
             Op::DropOwned(i) => {
                 if !st.owned.is_empty() {
@@ -775,6 +830,7 @@ fn op_strategy() -> impl Strategy<Value = Op> {
         1 => Just(Op::Clear),
         6 => (t_s(), 0..NIDS).prop_map(|(t, n)| Op::Reload(t, n)),
         1 => (t_s(), 0..NIDS).prop_map(|(t, n)| Op::BadReload(t, n)),
+        1 => (t_s(), 0..NIDS).prop_map(|(t, n)| Op::MissingReload(t, n)),
         1 => (prop_oneof![Just(T::HV), Just(T::A64)], 0..NIDS).prop_map(|(t, n)| Op::PanickyReload(t, n)),
         2 => (t_s(), 0..NIDS, 0u8..5).prop_map(|(t, n, y)| Op::GuardedReload(t, n, y)),
         2 => (t_s(), 0..NIDS, 2u8..5).prop_map(|(t, n, k)| Op::RaceLoad(t, n, k)),
@@ -789,8 +845,8 @@ impl Prop for C13 {
     }
 
     fn rule(&self) -> String {
-        "cases = histories over 3 ids x four value layouts (zero-sized, one byte, heap-owning, 64-byte aligned; all assets) of load, load_owned, get_or_insert, remove, take, clear, successful and failing reloads, reloads in which the destructor of the replaced value panics, \
-         reloads while a reader thread holds a guard, 2..4 threads loading one uncached key at the same instant (rendezvous in the loader), dropping owned values, and wrong-type views of cached handles; with and without a reloader; in a fifth of the cases 2..4 workers then use the AnyCache view of a LocalAssetCache (on threads iff AnyCache is Sync - decided at compile time - else sequentially). \
+        "cases = histories over 3 ids x four value layouts (zero-sized, one byte, heap-owning, 64-byte aligned; all assets) of load, load_owned, get_or_insert, remove, take, clear, successful and failing reloads (undecodable file, deleted file), reloads in which the destructor of the replaced value panics, \
+         reloads while a reader thread holds a guard, 2..4 threads loading one uncached key at the same instant (rendezvous in the loader; in half of these races one thread stores a value with get_or_insert while the others are inside the loader: that value stays), dropping owned values, and wrong-type views of cached handles; with and without a reloader; in a fifth of the cases 2..4 workers then use the AnyCache view of a LocalAssetCache (on threads iff AnyCache is Sync - decided at compile time - else sequentially). \
          Oracle after every step: the set of live tracked values equals exactly {values reachable through the cache} + {values owned by the caller} (drop ledger; counters for the untracked layouts), nothing dropped twice, nothing read after its drop, \
          content and alignment intact, racers agree on one handle and value, the value behind a live guard neither changes nor dies, take returns the stored value; untyped views answer is/downcast_ref/read().downcast true for the stored type only; \
          at the end everything is dropped exactly once and the checking allocator saw no bad free. \
@@ -861,7 +917,7 @@ pub fn decode(u: &mut arbitrary::Unstructured) -> arbitrary::Result<Value> {
     for _ in 0..u.int_in_range(2..=48)? {
         let t = ts[u.int_in_range(0..=3)?];
         let n = u.int_in_range(0..=NIDS - 1)?;
-        ops.push(match u.int_in_range(0..=13)? {
+        ops.push(match u.int_in_range(0..=14)? {
             0..=2 => Op::Load(t, n),
             3 => Op::LoadOwned(t, n),
             4 | 5 => Op::GetOrInsert(t, n),
@@ -871,6 +927,7 @@ pub fn decode(u: &mut arbitrary::Unstructured) -> arbitrary::Result<Value> {
             9 | 10 => Op::Reload(t, n),
             11 => Op::BadReload(t, n),
             12 => Op::DropOwned(u.arbitrary()?),
+            14 => Op::MissingReload(t, n),
             _ => Op::WrongTypeViews(t, n),
         });
     }
